@@ -3,5 +3,5 @@
 w=$1; pid=$2; k=$3; shift 3; checks="${@:-$pid}"
 wt=/tmp/wt${w}_$pid
 git -C $wt checkout -q -- . ; git -C $wt apply /tmp/mut${w}_$pid/m$k.diff || exit 3
-for c in $checks; do (cd /verif && VERIF_REPO=$wt ./check $c --tier ${TIER:-quick} 2>&1 | grep -E "^\s+[0-9]+ x|^$c|BINDER" | cut -c1-200 | head -6); done
+for c in $checks; do (cd /verif && VERIF_OUT=/tmp/verif_trial_out VERIF_REPO=$wt ./check $c --tier ${TIER:-quick} 2>&1 | grep -E "^\s+[0-9]+ x|^$c|BINDER" | cut -c1-200 | head -6); done
 git -C $wt checkout -q -- .
